@@ -417,14 +417,45 @@ class Ctx:
 
     # ---- Gen
     def gen(self, name, text):
+        if not hasattr(self, "generated"):
+            self.generated = set()
+        self.generated.add(name)
         p = os.path.join(TH, "Gen", name + ".v")
         if write_if_changed(p, text):
             self.note("Gen/%s.v regenerated (content changed)" % name)
 
     # ---- proofs
+    GEN_PROVIDERS = {"GsmTimeConst": "props.C19:gen", "CodecConst": "props.C16:gen", "TrxdProto": "props.C17:gen", "HoppingTab": "props.C07:gen",
+                     "FwSchedConst": "props.C08:gen", "ClockConst": "props.C09:gen", "MframeFw": "props.C11:gen", "MframeTrxcon": "props.C11:gen",
+                     "SercommConst": "props.C06:gen", "MobAllocConst": "props.C20:gen", "MobAllocSi4Const": "props.C20:gen",
+                     "FakeTrxConst": "gen.faketrx:gen_faketrx", "TscTab": "gen.faketrx:gen_faketrx", "TrxdConst": "gen.trxd:gen_trxd", "TrxIfConst": "trxif_util:gen_trxif"}
+
+    def ensure_gen(self, vfile):
+        """every Gen file in the cone of vfile that this run has not (re)generated itself is regenerated now from the repository
+        under test by the module that owns it (a property's cone may use tables another property's gen() produces: in a fresh
+        private tree they do not exist yet, and in the shared tree they must not be stale)"""
+        import importlib
+        done = set()
+        for v in coq_cone(vfile):
+            if os.sep + "Gen" + os.sep not in v:
+                continue
+            name = os.path.splitext(os.path.basename(v))[0]
+            if name in getattr(self, "generated", set()):
+                continue
+            prov = self.GEN_PROVIDERS.get(name)
+            if prov is None or prov in done:
+                continue
+            done.add(prov)
+            mod, fn = prov.split(":")
+            try:
+                getattr(importlib.import_module("vp." + mod), fn)(self)
+            except Exception as e:  # noqa - the build below reports the missing file
+                self.note("could not regenerate Gen/%s.v through %s: %s: %s" % (name, prov, type(e).__name__, e))
+
     def prove(self, allowed_axioms=()):
         """build the cone of Props/<pid>.v, audit assumptions and forbidden tokens"""
         props = os.path.join(TH, "Props", self.pid + ".v")
+        self.ensure_gen(props)
         ok, logs, failed = coq_build([props], force=[props])
         self.checker_cmds.append("coqc -q -Q coq/theories OBB <cone of Props/%s.v> (full .vo build, %d files)" % (self.pid, len(coq_cone(props))))
         cone = coq_cone(props)
